@@ -1,1 +1,298 @@
-// harnesses for support (included into /repo/src/support.rs under cfg(kani))
+// Shared support for the proof harnesses: device models and an independent reference ("spec") written from
+// the FAT specification on plain integers/arrays. Nothing in `spec` calls fatfs code.
+// Included as `crate::verif_support` under cfg(kani).
+
+#[allow(dead_code)]
+pub(crate) mod spec {
+    /// Geometry derived from BPB fields, all in u64 (no wrap-around possible).
+    #[derive(Clone, Copy)]
+    pub(crate) struct Geo {
+        pub bps: u64,
+        pub spc: u64,
+        pub reserved: u64,
+        pub fats: u64,
+        pub spf: u64,
+        pub root_entries: u64,
+        pub root_sectors: u64,
+        pub total: u64,
+        pub first_data: u64,
+        pub is_fat32_by_field: bool,
+    }
+
+    pub(crate) fn geo(
+        bps: u16, spc: u8, reserved: u16, fats: u8, root_entries: u16, total16: u16, total32: u32, spf16: u16, spf32: u32,
+    ) -> Geo {
+        let bps64 = bps as u64;
+        let is32 = spf16 == 0;
+        let spf = if is32 { spf32 as u64 } else { spf16 as u64 };
+        let root_bytes = root_entries as u64 * 32;
+        // ceil; bps may be 0 for garbage: then define root_sectors = 0 (caller rejects bps first)
+        let root_sectors = if bps64 == 0 { 0 } else { (root_bytes + bps64 - 1) / bps64 };
+        let total = if total16 == 0 { total32 as u64 } else { total16 as u64 };
+        let first_data = reserved as u64 + fats as u64 * spf + root_sectors;
+        Geo { bps: bps64, spc: spc as u64, reserved: reserved as u64, fats: fats as u64, spf, root_entries: root_entries as u64,
+              root_sectors, total, first_data, is_fat32_by_field: is32 }
+    }
+
+    pub(crate) fn is_pow2(x: u64) -> bool { x != 0 && (x & (x - 1)) == 0 }
+
+    /// 0 = FAT12, 1 = FAT16, 2 = FAT32 (Microsoft's cluster-count rule).
+    pub(crate) fn width_from_clusters(clusters: u64) -> u8 {
+        if clusters < 4085 { 0 } else if clusters < 65525 { 1 } else { 2 }
+    }
+
+    pub(crate) fn bits(width: u8) -> u64 { match width { 0 => 12, 1 => 16, _ => 32 } }
+
+    /// FAT12 raw entry from a byte table.
+    pub(crate) fn raw12(d: &[u8], c: u32) -> u32 {
+        let o = (c + c / 2) as usize;
+        let w = (d[o] as u32) | ((d[o + 1] as u32) << 8);
+        if c & 1 == 0 { w & 0xFFF } else { w >> 4 }
+    }
+    pub(crate) fn raw16(d: &[u8], c: u32) -> u32 {
+        let o = (c * 2) as usize;
+        (d[o] as u32) | ((d[o + 1] as u32) << 8)
+    }
+    pub(crate) fn raw32_full(d: &[u8], c: u32) -> u32 {
+        let o = (c * 4) as usize;
+        (d[o] as u32) | ((d[o + 1] as u32) << 8) | ((d[o + 2] as u32) << 16) | ((d[o + 3] as u32) << 24)
+    }
+    /// Entry value as the specification reads it (FAT32: low 28 bits). width: 0/1/2.
+    pub(crate) fn raw(width: u8, d: &[u8], c: u32) -> u32 {
+        match width { 0 => raw12(d, c), 1 => raw16(d, c), _ => raw32_full(d, c) & 0x0FFF_FFFF }
+    }
+    pub(crate) fn eoc_min(width: u8) -> u32 { match width { 0 => 0xFF8, 1 => 0xFFF8, _ => 0x0FFF_FFF8 } }
+    pub(crate) fn bad_mark(width: u8) -> u32 { match width { 0 => 0xFF7, 1 => 0xFFF7, _ => 0x0FFF_FFF7 } }
+    pub(crate) fn eoc_written(width: u8) -> u32 { match width { 0 => 0xFFF, 1 => 0xFFFF, _ => 0x0FFF_FFFF } }
+
+    /// Classification of an entry value: 0 free, 1 data (next = v), 2 bad, 3 end of chain.
+    pub(crate) fn classify(width: u8, v: u32) -> u8 {
+        if v == 0 { 0 } else if v == bad_mark(width) { 2 } else if v >= eoc_min(width) { 3 } else { 1 }
+    }
+
+    /// Long-name checksum of an 11-byte short name (specification's ChkSum routine).
+    pub(crate) fn lfn_checksum(sfn: &[u8; 11]) -> u8 {
+        let mut s: u8 = 0;
+        let mut i = 0;
+        while i < 11 {
+            s = (if s & 1 != 0 { 0x80u8 } else { 0 }).wrapping_add(s >> 1).wrapping_add(sfn[i]);
+            i += 1;
+        }
+        s
+    }
+
+    /// Byte offsets of the 13 UTF-16 units inside a 32-byte long-name slot.
+    pub(crate) const LFN_UNIT_OFFSETS: [usize; 13] = [1, 3, 5, 7, 9, 14, 16, 18, 20, 22, 24, 28, 30];
+
+    pub(crate) fn lfn_unit(slot: &[u8; 32], i: usize) -> u16 {
+        let o = LFN_UNIT_OFFSETS[i];
+        (slot[o] as u16) | ((slot[o + 1] as u16) << 8)
+    }
+}
+
+#[allow(dead_code)]
+pub(crate) mod dev {
+    use crate::io::{IoBase, Read, Seek, SeekFrom, Write};
+
+    fn seek_total(cur: u64, end: u64, pos: SeekFrom) -> u64 {
+        match pos {
+            SeekFrom::Start(x) => x,
+            SeekFrom::Current(d) => (cur as i64).wrapping_add(d) as u64,
+            SeekFrom::End(d) => (end as i64).wrapping_add(d) as u64,
+        }
+    }
+
+    /// Array-backed device that never short-reads/writes; an access outside [0, N) sets `oob`
+    /// (and transfers nothing). Counts calls.
+    pub(crate) struct TotDev<const N: usize> {
+        pub data: [u8; N],
+        pub pos: u64,
+        pub oob: bool,
+        pub writes: u32,
+        pub reads: u32,
+        pub flushes: u32,
+    }
+    impl<const N: usize> TotDev<N> {
+        pub(crate) fn new(data: [u8; N]) -> Self { Self { data, pos: 0, oob: false, writes: 0, reads: 0, flushes: 0 } }
+    }
+    impl<const N: usize> IoBase for TotDev<N> { type Error = (); }
+    impl<const N: usize> Read for TotDev<N> {
+        fn read(&mut self, buf: &mut [u8]) -> Result<usize, ()> {
+            let n = buf.len();
+            self.reads += 1;
+            if n > N || self.pos > (N - n) as u64 { self.oob = true; self.pos = self.pos.wrapping_add(n as u64); return Ok(n); }
+            let pos = self.pos as usize;
+            let mut i = 0;
+            while i < n { buf[i] = self.data[pos + i]; i += 1; }
+            self.pos += n as u64;
+            Ok(n)
+        }
+    }
+    impl<const N: usize> Write for TotDev<N> {
+        fn write(&mut self, buf: &[u8]) -> Result<usize, ()> {
+            let n = buf.len();
+            self.writes += 1;
+            if n > N || self.pos > (N - n) as u64 { self.oob = true; self.pos = self.pos.wrapping_add(n as u64); return Ok(n); }
+            let pos = self.pos as usize;
+            let mut i = 0;
+            while i < n { self.data[pos + i] = buf[i]; i += 1; }
+            self.pos += n as u64;
+            Ok(n)
+        }
+        fn flush(&mut self) -> Result<(), ()> { self.flushes += 1; Ok(()) }
+    }
+    impl<const N: usize> Seek for TotDev<N> {
+        fn seek(&mut self, pos: SeekFrom) -> Result<u64, ()> {
+            self.pos = seek_total(self.pos, N as u64, pos);
+            Ok(self.pos)
+        }
+    }
+
+    /// Error token carried by injected faults (so that "the storage's error" can be recognised).
+    #[derive(Debug, Clone, Copy, PartialEq, Eq)]
+    pub(crate) struct Tok(pub u8);
+    impl crate::error::IoError for Tok {
+        fn is_interrupted(&self) -> bool { false }
+        fn new_unexpected_eof_error() -> Self { Tok(0xEE) }
+        fn new_write_zero_error() -> Self { Tok(0xDD) }
+    }
+    pub(crate) const FAULT: Tok = Tok(0x77);
+
+    /// Total array device with ONE injected fault: the `fault_at`-th device call (read, write, seek or flush,
+    /// counted from 0) fails with `FAULT`. A call budget guards termination.
+    pub(crate) struct FaultDev<const N: usize> {
+        pub data: [u8; N],
+        pub pos: u64,
+        pub oob: bool,
+        pub calls: u32,
+        pub fault_at: u32,
+        pub fired: bool,
+        pub budget: u32,
+    }
+    impl<const N: usize> FaultDev<N> {
+        pub(crate) fn new(data: [u8; N], fault_at: u32, budget: u32) -> Self {
+            Self { data, pos: 0, oob: false, calls: 0, fault_at, fired: false, budget }
+        }
+        fn tick(&mut self) -> Result<(), Tok> {
+            let c = self.calls;
+            assert!(c < self.budget, "device-call budget exceeded: the operation does not terminate");
+            self.calls += 1;
+            if c == self.fault_at { self.fired = true; Err(FAULT) } else { Ok(()) }
+        }
+    }
+    impl<const N: usize> IoBase for FaultDev<N> { type Error = Tok; }
+    impl<const N: usize> Read for FaultDev<N> {
+        fn read(&mut self, buf: &mut [u8]) -> Result<usize, Tok> {
+            self.tick()?;
+            let n = buf.len();
+            if n > N || self.pos > (N - n) as u64 { self.oob = true; self.pos = self.pos.wrapping_add(n as u64); return Ok(n); }
+            let pos = self.pos as usize;
+            let mut i = 0;
+            while i < n { buf[i] = self.data[pos + i]; i += 1; }
+            self.pos += n as u64;
+            Ok(n)
+        }
+    }
+    impl<const N: usize> Write for FaultDev<N> {
+        fn write(&mut self, buf: &[u8]) -> Result<usize, Tok> {
+            self.tick()?;
+            let n = buf.len();
+            if n > N || self.pos > (N - n) as u64 { self.oob = true; self.pos = self.pos.wrapping_add(n as u64); return Ok(n); }
+            let pos = self.pos as usize;
+            let mut i = 0;
+            while i < n { self.data[pos + i] = buf[i]; i += 1; }
+            self.pos += n as u64;
+            Ok(n)
+        }
+        fn flush(&mut self) -> Result<(), Tok> { self.tick() }
+    }
+    impl<const N: usize> Seek for FaultDev<N> {
+        fn seek(&mut self, pos: SeekFrom) -> Result<u64, Tok> {
+            self.tick()?;
+            self.pos = seek_total(self.pos, N as u64, pos);
+            Ok(self.pos)
+        }
+    }
+
+    pub(crate) const LOGN: usize = 8;
+
+    /// Device without contents: it records WHERE things are written (offset, length, first byte) and when
+    /// flush is called; reads return bytes chosen by the harness (`fill`), one watched byte is tracked exactly.
+    pub(crate) struct LogDev {
+        pub pos: u64,
+        pub end: u64,
+        pub nw: usize,
+        pub w_off: [u64; LOGN],
+        pub w_len: [u64; LOGN],
+        pub w_first: [u8; LOGN],
+        pub overflow: bool,
+        pub nreads: u32,
+        pub flushes: u32,
+        pub writes_at_last_flush: usize,
+        pub fill: u8,
+        pub watch_addr: u64,
+        pub watch_val: u8,
+    }
+    impl LogDev {
+        pub(crate) fn new(end: u64) -> Self {
+            Self { pos: 0, end, nw: 0, w_off: [0; LOGN], w_len: [0; LOGN], w_first: [0; LOGN], overflow: false, nreads: 0,
+                   flushes: 0, writes_at_last_flush: 0, fill: 0, watch_addr: u64::MAX, watch_val: 0 }
+        }
+    }
+    impl IoBase for LogDev { type Error = (); }
+    impl Read for LogDev {
+        fn read(&mut self, buf: &mut [u8]) -> Result<usize, ()> {
+            self.nreads += 1;
+            let n = buf.len() as u64;
+            let a = self.pos;
+            if n > 0 && self.watch_addr >= a && self.watch_addr - a < n {
+                buf[(self.watch_addr - a) as usize] = self.watch_val;
+            }
+            self.pos = a.wrapping_add(n);
+            Ok(buf.len())
+        }
+    }
+    impl Write for LogDev {
+        fn write(&mut self, buf: &[u8]) -> Result<usize, ()> {
+            let n = buf.len() as u64;
+            let a = self.pos;
+            if self.nw < LOGN {
+                self.w_off[self.nw] = a;
+                self.w_len[self.nw] = n;
+                self.w_first[self.nw] = if buf.is_empty() { 0 } else { buf[0] };
+                self.nw += 1;
+            } else {
+                self.overflow = true;
+            }
+            if n > 0 && self.watch_addr >= a && self.watch_addr - a < n {
+                self.watch_val = buf[(self.watch_addr - a) as usize];
+            }
+            self.pos = a.wrapping_add(n);
+            Ok(buf.len())
+        }
+        fn flush(&mut self) -> Result<(), ()> { self.flushes += 1; self.writes_at_last_flush = self.nw; Ok(()) }
+    }
+    impl Seek for LogDev {
+        fn seek(&mut self, pos: SeekFrom) -> Result<u64, ()> {
+            self.pos = seek_total(self.pos, self.end, pos);
+            Ok(self.pos)
+        }
+    }
+}
+
+#[allow(dead_code)]
+pub(crate) mod stubs {
+    /// Replacement for core::slice::memchr::memchr (std's version does pointer-alignment arithmetic that CBMC
+    /// treats as nondeterministic). Same contract: index of the first occurrence.
+    pub fn memchr(x: u8, text: &[u8]) -> Option<usize> {
+        let mut i = 0;
+        while i < text.len() { if text[i] == x { return Some(i); } i += 1; }
+        None
+    }
+    /// Replacement for core::slice::memchr::memrchr: index of the last occurrence.
+    pub fn memrchr(x: u8, text: &[u8]) -> Option<usize> {
+        let mut i = text.len();
+        while i > 0 { i -= 1; if text[i] == x { return Some(i); } }
+        None
+    }
+}
